@@ -273,6 +273,7 @@ def ref_local_train(kind, rng_variant, params, batches, key, client_opt, l2=0.0,
   opt_state = client_opt.init(params)
   rng = key
   steps = 0
+  ILL['flag'] = False
   for b in batches:
     rng, use = jax.random.split(rng)
     noise = noise_for(kind, params, use) if rng_variant else None
@@ -281,9 +282,63 @@ def ref_local_train(kind, rng_variant, params, batches, key, client_opt, l2=0.0,
       mu, sp = prox
       for k in g:
         g[k] = g[k] + mu * (np.asarray(params[k], np.float64) - np.asarray(sp[k], np.float64))
+    # sign-like optimizers (Adam, Yogi, Adagrad, ...) turn a gradient component of rounding-noise size into a step of
+    # size ~lr: float32 (system) and float64 (reference) gradients may then legitimately differ by O(lr)
+    if any(np.any(np.abs(v) < 1e-5) for v in g.values()):
+      ILL['flag'] = True
     opt_state, params = client_opt.apply(to32(g), opt_state, params)
     steps += 1
   return params, steps
+
+
+ILL = {'flag': False}
+
+
+def server_step_check(sopt, mean64, opt_state, params, got_params, got_opt_state=None, rtol=1e-4, atol=1e-5):
+  """Compares the system's server step with sopt applied to the reference mean delta, robustly.
+
+  The mean delta computed by the system in float32 differs from the float64 reference by rounding noise of the size of
+  a few ulps of the parameters.  Adaptive optimizers are discontinuous near a zero gradient (g/(|g|+eps)), so the
+  reference step is evaluated at mean, mean+e and mean-e (e = 1e-6 * max(1, |theta|)) and the system's value must lie
+  inside the hull of the three results (+ the usual tolerance).  For well-conditioned coordinates the hull is a point.
+  Returns (message or None, hull_was_wide: bool).
+  """
+  import jax
+  scale = max([1.0] + [float(np.max(np.abs(np.asarray(v)))) for v in jax.tree_util.tree_leaves(params) if np.size(v)])
+  e = 1e-6 * scale
+  outs = []
+  for d in (0.0, e, -e):
+    m = {k: np.asarray(v, np.float64) + d for k, v in mean64.items()}
+    outs.append(sopt.apply(to32(m), opt_state, params))
+  wide = False
+
+  def cmp(got, idx, what):
+    nonlocal wide
+    lg, tg = jax.tree_util.tree_flatten(got)
+    refs = [jax.tree_util.tree_flatten(o[idx]) for o in outs]
+    if any(t != tg for _, t in refs):
+      return f'{what}: structure differs'
+    for i, x in enumerate(lg):
+      x = np.asarray(x, np.float64)
+      ys = [np.asarray(r_[0][i], np.float64) for r_ in refs]
+      if any(y.shape != x.shape for y in ys):
+        return f'{what} leaf {i}: shape'
+      if not np.all(np.isfinite(x)):
+        return f'{what} leaf {i} not finite: {x.tolist()}'
+      lo, hi = np.minimum.reduce(ys), np.maximum.reduce(ys)
+      sc_ = max(1.0, float(np.max(np.abs(ys[0]))) if ys[0].size else 1.0)
+      tol = atol * sc_ + rtol * np.abs(ys[0])
+      if np.any(hi - lo > 10 * tol):
+        wide = True
+      if not np.all((x >= lo - tol) & (x <= hi + tol)):
+        return (f'{what} leaf {i}: got {x.tolist()} want {ys[0].tolist()} '
+                f'(max abs diff {float(np.max(np.abs(x - ys[0]))):.3g})')
+    return None
+
+  msg = cmp(got_params, 1, 'params')
+  if msg is None and got_opt_state is not None:
+    msg = cmp(got_opt_state, 0, 'server optimizer state')
+  return msg, wide
 
 
 def weighted_mean_delta(params, trained, weights):
